@@ -48,6 +48,14 @@ func Goroutines() []Goroutine {
 		}
 		stackBuf = make([]byte, 2*len(stackBuf))
 	}
+	if WAMDebug != nil {
+		lastRaw = ""
+		for _, ln := range strings.Split(string(buf), "\n") {
+			if strings.HasPrefix(ln, "goroutine ") {
+				lastRaw += ln + " | "
+			}
+		}
+	}
 	var out []Goroutine
 	for _, blk := range strings.Split(string(buf), "\n\n") {
 		blk = strings.TrimSpace(blk)
@@ -125,6 +133,22 @@ func CurrentBubble() int64 {
 // same set of mutex waiters, and returns the number of mutex waiters.  With 0
 // the bubble is quiescent in synctest's sense and synctest.Wait may be called.
 // ok is false if that state was not reached within about ten seconds.
+// activeUntagged: the state of a goroutine without a bubble tag that may be
+// running or about to run.
+func activeUntagged(state string) bool {
+	for _, p := range []string{"running", "runnable", "preempted", "copystack", "GC assist", "GC sweep", "GC worker", "GC scavenge", "force gc", "waiting"} {
+		if strings.HasPrefix(state, p) {
+			return true
+		}
+	}
+	return false
+}
+
+// WAMDebug, if set, receives the goroutine states of the deciding snapshot (tests only).
+var WAMDebug func(string)
+
+var lastStates, lastRaw, decidingRaw string
+
 func WaitAllowMutex() (waiters int, ok bool) {
 	me := GoID()
 	var bubble int64
@@ -140,9 +164,27 @@ func WaitAllowMutex() (waiters int, ok bool) {
 	for i := 0; i < 200000; i++ {
 		quiet := true
 		var ids []string
+		lastStates = ""
 		for _, g := range Goroutines() {
-			if !g.Bubble || g.BubbleID != bubble || g.ID == me {
+			if g.ID == me {
 				continue
+			}
+			if !g.Bubble {
+				// While a goroutine allocates with a garbage collection under
+				// way (GC assist) the runtime takes it out of its bubble for a
+				// moment, and its dump entry carries no bubble tag then.  So an
+				// untagged goroutine that is not parked may be one of ours.
+				if activeUntagged(g.State) {
+					quiet = false
+				}
+				continue
+			}
+			if g.BubbleID != bubble {
+				continue
+			}
+			if WAMDebug != nil {
+				lastStates += strconv.FormatInt(g.ID, 10) + "[" + g.State + "] "
+				decidingRaw = lastRaw
 			}
 			switch {
 			case strings.Contains(g.State, "(durable)"):
@@ -155,6 +197,15 @@ func WaitAllowMutex() (waiters int, ok bool) {
 		if quiet {
 			cur := "q:" + strings.Join(ids, ",")
 			if cur == prev {
+				if WAMDebug != nil {
+					var sb strings.Builder
+					for _, g := range Goroutines() {
+						if g.Bubble && g.BubbleID == bubble {
+							sb.WriteString(strconv.FormatInt(g.ID, 10) + "[" + g.State + "] ")
+						}
+					}
+					WAMDebug(lastStates + " || RAW: " + decidingRaw + " || after: " + sb.String())
+				}
 				return len(ids), true
 			}
 			prev = cur
